@@ -11,7 +11,7 @@ from pedal.types.new_types import (AnyType, ImpossibleType,
 
 def add_tuples(left, right):
     """ Literally just concatenate the types """
-    return tuple(left.element_types) + tuple(right.element_types)
+    return TupleType(tuple(left.element_types) + tuple(right.element_types))
 
 
 def add_element_container_types(left, right):
@@ -90,15 +90,15 @@ VALID_BINOP_TYPES = {
               FloatType: {NumType: NumType_any,
                           IntType: FloatType_any,
                           FloatType: FloatType_any}},
-    ast.FloorDiv: {NumType: {NumType: IntType_any,
+    ast.FloorDiv: {NumType: {NumType: NumType_any,
+                             IntType: NumType_any,
+                             FloatType: FloatType_any},
+                   IntType: {NumType: NumType_any,
                              IntType: IntType_any,
-                             FloatType: IntType_any},
-                   IntType: {NumType: IntType_any,
-                             IntType: IntType_any,
-                             FloatType: IntType_any},
-                   FloatType: {NumType: IntType_any,
-                               IntType: IntType_any,
-                               FloatType: IntType_any}},
+                             FloatType: FloatType_any},
+                   FloatType: {NumType: FloatType_any,
+                               IntType: FloatType_any,
+                               FloatType: FloatType_any}},
     ast.Mult: {NumType: {NumType: NumType_any,
                          IntType: NumType_any,
                          FloatType: NumType_any,
